@@ -17,8 +17,12 @@ out = ["# Seeded changes — catch record", "",
        "| directory | property | needs, to manifest | reported by | as the checks stood when it arrived |", "|---|---|---|---|---|"]
 for name, m in rows:
     notes = m.get("notes", "")
-    if "MISSED" in notes:
+    if notes.startswith("NOT reported"):
+        status = "**not reported by a rule of its own property** — recorded limit"
+    elif "MISSED" in notes or notes.startswith("missed on arrival"):
         status = "**missed** — rule added"
+    elif notes.startswith("on arrival reported only by") or notes.startswith("reported only"):
+        status = "caught under another property only — rule added / shared"
     elif re.search(r"only C\d\d\.\w+ reported", notes):
         status = "caught under another property only — rule shared"
     elif notes.startswith("The rules as they stood reported the change only because"):
@@ -30,7 +34,9 @@ for name, m in rows:
         need = need[:257] + "..."
     out.append("| `%s` | %s | %s | %s | %s |" % (name, m["property"], need, "; ".join(m.get("caught_by", [])).replace("|", "/"), status))
 n = len(rows)
-missed = sum("MISSED" in m.get("notes", "") for _, m in rows)
-out += ["", "%d changes stored; %d were missed by the checks as they stood when the change arrived and led to new rules (see `notes` in their meta.json and DESIGN.md §7a); every one of them is reported by the committed checks." % (n, missed)]
+missed = sum(("MISSED" in m.get("notes", "") or m.get("notes", "").startswith("missed on arrival")) for _, m in rows)
+other = sum(m.get("notes", "").startswith("on arrival reported only by") for _, m in rows)
+limits = sum(m.get("notes", "").startswith("NOT reported") for _, m in rows)
+out += ["", "%d changes stored; %d were missed by the checks as they stood when the change arrived and led to new rules, %d more were reported only under a neighbouring property and led to a rule of their own property (see `notes` in their meta.json and DESIGN.md §7a); %d is recorded as a limit (reported by no rule of its own property); every other one is reported by a rule of its own property on the committed checks." % (n, missed, other, limits)]
 open("/verif/seeded/INDEX.md", "w").write("\n".join(out) + "\n")
 print("\n".join(out[-3:]))
